@@ -3,7 +3,8 @@
 d="$1"; tier="${2:-quick}"
 prop=$(python3 -c "import json,sys; print(json.load(open('$d/meta.json'))['property'])")
 cd /repo && git apply "$d/patch.diff" || { echo "patch does not apply"; exit 3; }
-cd /verif && ./check "$prop" "$tier" | tail -4 | cut -c1-600
+mkdir -p /var/tmp/seed-evidence /var/tmp/seed-replays
+cd /verif && VERIF_EVIDENCE_DIR=/var/tmp/seed-evidence VERIF_REPLAY_DIR=/var/tmp/seed-replays ./check "$prop" "$tier" | tail -4 | cut -c1-600
 rc=$?
 cd /repo && git checkout -- . 
 cd /verif && PYTHONPATH=/repo /venv/bin/python -B tools/extract.py >/dev/null 2>&1
